@@ -20,15 +20,15 @@ func init() {
 	register(&Check{
 		ID: "C13", Level: "exploration", Primary: "sessions", EvalCount: "sessions_checked", RaceIsViolation: false,
 		Rule: "one session = a standards-conforming StartTLS upgrade (go-ldap's StartTLS, and a raw client that waits for the response before its ClientHello) through a wiretap proxy recording both directions, " +
-			"against a StartTLS handler with delays in {0,1,5,50ms, and 0.7-3s} before the reply, between the reply and Request.StartTLS, and after it; 1..64 sessions upgrade in parallel; after the upgrade a mix of requests " +
-			"(go-ldap bind/search/modify, and pipelined concurrent raw requests over the tunnel) is checked with the C01 comparison; part of the sessions stay open and idle until the server is stopped, so that shutdown-time bytes are on the wiretap too. Wiretap oracle: plaintext LDAP frames up to and including the StartTLS request " +
+			"against a StartTLS handler (registered on the exact-name route, or - every third timing - performed by the default route) with delays in {0,1,5,50ms, and 0.7-3s} before the reply, between the reply and Request.StartTLS, and after it; 1..64 sessions upgrade in parallel; after the upgrade a mix of requests " +
+			"(go-ldap bind/search/modify, and pipelined concurrent raw requests over the tunnel) is checked with the C01 comparison; one session keeps using the tunnel after several seconds of think time; part of the sessions stay open and idle until the server is stopped, so that shutdown-time bytes are on the wiretap too. Wiretap oracle: plaintext LDAP frames up to and including the StartTLS request " +
 			"(client->server) / the ExtendedResponse with its message ID (server->client), after which every byte in both directions parses as TLS records (content type 20-23, major version 3, length <= 2^14+2048). " +
 			"distinct_nontrivial = distinct (timing triple, client kind, parallelism) combinations whose upgrade completed",
 		Assume: []string{"TLS protection is judged on the wire by record framing; the harness does not attempt to decrypt"},
 		Phases: func(tier string, seed int64) []Phase {
 			return []Phase{{Name: "upgrades", Race: true, Run: c13Run}}
 		},
-		MinObserved: []string{"sessions_checked", "tls_records_classified", "post_upgrade_requests_compared", "sessions_open_and_idle_at_stop"},
+		MinObserved: []string{"sessions_checked", "tls_records_classified", "post_upgrade_requests_compared", "sessions_open_and_idle_at_stop", "upgrades_served_by_the_default_route", "requests_answered_after_think_time"},
 	})
 }
 
@@ -184,20 +184,28 @@ func c13Run(c *Ctx) {
 
 func c13Timed(c *Ctx, pki *PKI, tm c13Timing, par int, ti int) {
 	rc := &Recorder{}
+	// every third timing lets the DEFAULT route perform the upgrade (a mux without an explicit StartTLS route)
+	viaDefault := ti%3 == 2
+	upgrade := func(w *gldap.ResponseWriter, r *gldap.Request) {
+		time.Sleep(time.Duration(tm.D1) * time.Millisecond)
+		resp := r.NewExtendedResponse(gldap.WithResponseCode(gldap.ResultSuccess))
+		resp.SetResponseName(gldap.ExtendedOperationStartTLS)
+		if err := w.Write(resp); err != nil {
+			return
+		}
+		time.Sleep(time.Duration(tm.D2) * time.Millisecond)
+		if err := r.StartTLS(pki.ServerOnly); err != nil {
+			return
+		}
+		time.Sleep(time.Duration(tm.D3) * time.Millisecond)
+	}
 	srv, err := startSrv(SrvCfg{}, func(m *gldap.Mux) {
-		m.ExtendedOperation(func(w *gldap.ResponseWriter, r *gldap.Request) {
-			time.Sleep(time.Duration(tm.D1) * time.Millisecond)
-			resp := r.NewExtendedResponse(gldap.WithResponseCode(gldap.ResultSuccess))
-			resp.SetResponseName(gldap.ExtendedOperationStartTLS)
-			if err := w.Write(resp); err != nil {
-				return
-			}
-			time.Sleep(time.Duration(tm.D2) * time.Millisecond)
-			if err := r.StartTLS(pki.ServerOnly); err != nil {
-				return
-			}
-			time.Sleep(time.Duration(tm.D3) * time.Millisecond)
-		}, gldap.ExtendedOperationStartTLS)
+		if viaDefault {
+			m.DefaultRoute(upgrade)
+			c.Count("upgrades_served_by_the_default_route", 1)
+		} else {
+			m.ExtendedOperation(upgrade, gldap.ExtendedOperationStartTLS)
+		}
 		m.Bind(rc.Handler("bind", ""))
 		m.Search(rc.Handler("search", ""))
 		m.Modify(rc.Handler("modify", ""))
@@ -315,6 +323,22 @@ func c13Timed(c *Ctx, pki *PKI, tm c13Timing, par int, ti int) {
 				mu.Lock()
 				sent = append(sent, specs...)
 				mu.Unlock()
+				// think time: a session that stays in use long after the upgrade must keep being answered
+				if s == 1 && ti == 1 && !c.MuteViolations {
+					pause := time.Duration(c.N(6500, 35000)) * time.Millisecond
+					time.Sleep(pause)
+					q := genReq(r, "search")
+					q.ID = int64(9000000 + ti)
+					tcl.Send(q.Encode())
+					if _, err := tcl.ReadMsg(c13Wait); err != nil {
+						c.Violate("request inside the tunnel failed", fmt.Sprintf("a request sent %s after the upgrade got no answer: %v", pause, err), det)
+					} else {
+						c.Count("requests_answered_after_think_time", 1)
+					}
+					mu.Lock()
+					sent = append(sent, q)
+					mu.Unlock()
+				}
 			}
 			if ok {
 				mu.Lock()
